@@ -5,6 +5,7 @@ allocation sites, functions specialised on constant boolean arguments.
 from __future__ import annotations
 
 import ast
+import copy
 from dataclasses import dataclass, field
 from typing import Dict, FrozenSet, Iterable, List, Optional, Set, Tuple
 
@@ -256,6 +257,13 @@ class Flow:
                 self.assign(s.target, ty or t, v, s)
             elif isinstance(s.target, ast.Name) and ty is not None:
                 self._set(s.target.id, ty, set())
+            return
+        if isinstance(s, ast.AugAssign) and getattr(s, "rebinds", False):
+            # normal form of `x = x op y` (pgstat/model.py): a plain assignment of a new object
+            tg = s.target
+            load = copy.deepcopy(tg)
+            load.ctx = ast.Load()
+            self.stmt(ast.copy_location(ast.Assign(targets=[tg], value=ast.copy_location(ast.BinOp(left=load, op=s.op, right=s.value), s)), s))
             return
         if isinstance(s, ast.AugAssign):
             t, v = self.expr(s.value)
